@@ -906,7 +906,7 @@ def _sweeps(tier):
     out = []
     if tier == "quick":
         out.append(("tree_load2", (0, 1), 2, True, "all"))
-        out.append(("tree_deferred2", (0, 1), 2, True, "all"))
+        out.append(("tree_deferred2", (0, 1), 2, True, "conflict"))
         for name in QUICK_CONFLICT:
             for prio in _prios(name)[:2]:
                 out.append((name, prio, 2, True, "conflict"))
@@ -1025,7 +1025,7 @@ def explore(ctx: runner.Ctx):  # noqa: C901
 
     _phase(ctx, "two-preemption sweeps")
     if only in ("", "pct"):
-        ctx.given(st_case(), lambda case: check_case(ctx, case), ctx.budget(1600, 80000))
+        ctx.given(st_case(), lambda case: check_case(ctx, case), ctx.budget(1400, 80000))
     _phase(ctx, "PCT")
 
 
